@@ -111,9 +111,16 @@ Section WithEv.
         | VStr a, VStr b => Ok (String.eqb a b)
         | VArr a, VArr b =>
             if Nat.eqb (List.length a) (List.length b) then eq_thunks a b else Ok false
-        | VRec a _, VRec b _ =>
-            (* the sealed tails are ignored; same field names, then pairwise in the order of the left record *)
-            if Nat.eqb (List.length a) (List.length b) && forallb (fun '(x, _) => mem x b) a then
+        | VRec a ta, VRec b tb =>
+            (* operation.rs `eq`: two records without fields and without sealed tail are equal; a record
+               without fields is the inline empty record, which is different from any allocated record
+               (in particular from one that only has a sealed tail); otherwise the sealed tails are
+               ignored: same field names, then pairwise in the order of the left record *)
+            let empty (fs : list (string * thunk)) (t : rtl) :=
+              match fs, t with [], RNone => true | _, _ => false end in
+            if empty a ta && empty b tb then Ok true
+            else if empty a ta || empty b tb then Ok false
+            else if Nat.eqb (List.length a) (List.length b) && forallb (fun '(x, _) => mem x b) a then
               eq_thunks (map snd a)
                         (map (fun '(x, _) => match lookup x b with Some t => t | None => Th [] (Var x) end) a)
             else Ok false
@@ -217,7 +224,10 @@ Section WithEv.
         | _ :: _ => blame l
         | [] =>
             match ct with
-            | CTEmpty => match extra with _ :: _ => blame l | [] => Ok (VRec center RNone) end
+            | CTEmpty =>
+                (* `split_result.right_only != {} && !has_tail`: right_only carries the sealed tail of the
+                   checked value, and == only treats a record as empty when it has no sealed tail *)
+                match extra, vt with [], RNone => Ok (VRec center RNone) | _, _ => blame l end
             | CTDyn => Ok (VRec (extend_fields center extra) vt)      (* $dyn_tail: disjoint_merge *)
             | CTUnbound => Err Unbound
             | CTVar k excl =>                                          (* $forall_record_tail *)
